@@ -82,6 +82,7 @@ Inductive uerr :=
 | UDegenerateStep        (* "degenerate repetition step" *)
 | UDepOutside            (* "derived factor depends on a factor outside the design" *)
 | UEmptyCrossing         (* "empty crossing" *)
+| UStrided               (* "run-length constraint on a strided factor: documentation silent" *)
 | UKind (kind : string). (* the constraint kind *)
 
 Inductive res (A : Type) :=
@@ -459,10 +460,29 @@ Definition crossing_preamble (crossing : list nat) : res nat :=
                if is_derived fd then q <- window_params fd ;; Ok (Nat.max m (wp_start q)) else Ok m)
             crossing (Ok 0).
 
+(** reading decision 8: a run-length constraint on a window factor of stride > 1 is outside
+    the reference semantics *)
+Definition strided (fd : pfactor) : bool :=
+  match pf_kind fd with
+  | FDerived w _ => match pw_type w with WWindow _ stride _ => 1 <? stride | _ => false end
+  | _ => false
+  end.
+
+Definition is_run_kind (kd : krow) : bool :=
+  match kd with RExactlyK => false | _ => true end.
+
+Definition target_factor (tg : ptarget) : nat :=
+  match tg with TLevel f _ => f | TFactor f => f end.
+
 Definition expand_constraint (c : pcons) : res (list pcons) :=
   match c with
-  | PKRow kd k (TFactor f) =>
-    fd <- fm f ;; ns <- level_names fd ;; Ok (map (fun n => PKRow kd k (TLevel f n)) ns)
+  | PKRow kd k tg =>
+    ok <- (if is_run_kind kd then fd <- fm (target_factor tg) ;; if strided fd then Unsup UStrided else Ok tt
+           else Ok tt) ;;
+    match tg with
+    | TFactor f => fd <- fm f ;; ns <- level_names fd ;; Ok (map (fun n => PKRow kd k (TLevel f n)) ns)
+    | TLevel _ _ => Ok [c]
+    end
   | _ => Ok [c]
   end.
 
@@ -524,11 +544,18 @@ Definition finish_cw (mode : dmode) (T : nat) (c : dcross) : res dcross :=
     if w =? x_cw c then Ok c
     else match mode with DEqual => Unsup UEqualSizes | _ => Ok (set_cw c w) end.
 
+(** the block's preamble: the first crossing's; under POST_PREAMBLE the unified one (reading decision 9) *)
+Definition block_P (al : alignment) (cs : list dcross) : nat :=
+  match al with
+  | PostPreamble => list_max (map (fun c => x_P c * x_su c) cs)
+  | _ => match cs with c :: _ => x_P c * x_su c | [] => 0 end
+  end.
+
 (** [_finish(program, bd, mode)]: trial count and crossing weights *)
 Definition finish (bd : blockdoc) (mode : dmode) : res blockdoc :=
   let cs := b_crossings bd in
   let T := finish_T (b_alignment bd) cs (b_min_trials bd) in
-  let P := match cs with c :: _ => x_P c * x_su c | [] => 0 end in
+  let P := block_P (b_alignment bd) cs in
   if alignment_eqb (b_alignment bd) EqualPreamble
      && negb (match cs with [] => true | c0 :: _ => forallb (fun c => x_P c =? x_P c0) cs end)
   then Unsup UEqualPreamble
